@@ -75,6 +75,19 @@ def answer : List String → String
     | _, _ => "bad-op"
   | ["prev", bs, c, n] => match parseNatList? bs, parseNat? c, parseNat? n with
     | some bs, some c, some n => showOpt showPairN (prevNode bs c n) | _, _, _ => "bad-op"
+  | ["simplecs", nC, b, afs, af, cls, cl, pfs] =>
+    let optList? (s : String) : Option (Option (List Rat)) :=
+      if s = "_" then some none else (parseRatList? s).map some
+    let optRat? (s : String) : Option (Option Rat) :=
+      if s = "_" then some none else (parseRat? s).map some
+    match parseNat? nC, parseNat? b, optList? afs, optRat? af, optList? cls, optRat? cl, optList? pfs with
+    | some nC, some b, some afs, some af, some cls, some cl, some pfs =>
+      let av := availabilitySimple afs af nC
+      let cl := cycleLengthsSimple cls cl nC
+      showList showRat av ++ ";" ++ showList showRat cl ++ ";"
+        ++ showList (showList showRat) (stepLengthsSimple cl av b) ++ ";"
+        ++ showList (showList showRat) (powerFractionsSimple pfs nC b)
+    | _, _, _, _, _, _, _ => "bad-op"
   | ["steps", "simple", lens, avails, b] =>
     match parseRatList? lens, parseRatList? avails, parseNat? b with
     | some lens, some avails, some b =>
